@@ -305,13 +305,16 @@ class StubsStringGenerator:
 
                 if not is_internal_superclass:
                     self._add_to_imports(superclass)
-                    superclass_names.append(_replace_if_safeds_keyword(superclass_name))
+                    # The superclass can already be listed as the superclass of an internal superclass
+                    if _replace_if_safeds_keyword(superclass_name) not in superclass_names:
+                        superclass_names.append(_replace_if_safeds_keyword(superclass_name))
                 else:
                     # For internal superclasses, we have to add their public members to subclasses.
                     superclass_methods_text += self._create_internal_class_string(
                         superclass=superclass,
                         inner_indentations=inner_indentations,
                         already_defined_names=already_defined_names,
+                        public_superclass_names=superclass_names,
                     )
 
             superclass_info = f" sub {', '.join(superclass_names)}" if superclass_names else ""
@@ -887,6 +890,7 @@ class StubsStringGenerator:
         superclass: str,
         inner_indentations: str,
         already_defined_names: set[str],
+        public_superclass_names: list[str],
     ) -> str:
         try:
             superclass_class = self._get_class_in_package(superclass)
@@ -922,7 +926,12 @@ class StubsStringGenerator:
                     superclass_superclass,
                     inner_indentations,
                     already_defined_names,
+                    public_superclass_names,
                 )
+            elif superclass_superclass != "abc.ABC" and _replace_if_safeds_keyword(name) not in public_superclass_names:
+                # A public superclass of an internal superclass is a superclass of the subclass too
+                self._add_to_imports(superclass_superclass)
+                public_superclass_names.append(_replace_if_safeds_keyword(name))
 
         return superclass_methods_text
 
